@@ -2,18 +2,26 @@ import ast
 import re
 from string import Template
 
-from outsourcer import CodeBuilder, Code, Val
+from outsourcer import CodeBuilder, Code, OMITTED, Val
 
 from . import expressions as ex
 from . import parser
 from .expressions import TEXT, POS, Ref, visit
 
 
+class _CodeBuilder(CodeBuilder):
+    def var(self, base_name, initializer=OMITTED):
+        # Temporary variables share a namespace with the user's class fields,
+        # parameters and "let" variables ("value2", "item1", ...). Names with
+        # a leading underscore are reserved for generated code.
+        return super().var('_' + base_name.lstrip('_'), initializer)
+
+
 def generate_source_code(docstring, parsed):
     # Convert the parse tree into a list of parsing expressions.
     nodes = parser.transform(parsed.body, _create_parsing_expression)
 
-    out = CodeBuilder()
+    out = _CodeBuilder()
     out.add_docstring(docstring)
 
     flags = _Flags(uses_context=parsed.name is not None)
